@@ -98,10 +98,16 @@ Proof. exact bt_iter_exact. Qed.
 Theorem C06_btree_cyclic_parent_refuted : forall fuel, bt_collect fuel heap_cyc 8 8 8 0 = OutOfFuel.
 Proof. exact bt_cyclic_parent_out_of_fuel_refuted. Qed.
 
-(* a len field above CAPACITY (corrupt node): the key slice is out of range *)
-Theorem C06_btree_len_above_capacity_refuted :
-  bt_collect 100 [(8, mkNode 0 0 12 [] [])] 8 8 8 0 = Panic SITE_BT_SLICE.
-Proof. exact bt_len_above_capacity_refuted. Qed.
+(* a len field above CAPACITY (memory that is not a node): the key slice was out of range before the repair
+   (Panic SITE_BT_SLICE, exhibited on the real debugger by `var ~(&map)[..6]`); now it is read as a full node *)
+Theorem C06_btree_len_above_capacity_clamped :
+  bt_collect 100 [(8, mkNode 0 0 12 [] [])] 8 8 8 0 = Ok (map (fun i => (8, i)) (seqN 0 11)).
+Proof. exact bt_len_above_capacity_clamped. Qed.
+
+(* for every memory contents: the key / value slices of the B-tree walk are never out of range (since the repair) *)
+Theorem C06_btree_no_slice_panic : forall fuel heap ks vs root h,
+  bt_collect fuel heap ks vs root h <> Panic SITE_BT_SLICE.
+Proof. exact bt_collect_no_slice_panic. Qed.
 
 (* ---- enums ------------------------------------------------------------------------------- *)
 (* tag of 1/2/4/8 bytes, signed or unsigned, discriminant constants in any DWARF form: the variant
